@@ -197,6 +197,7 @@ def main():
         rc1, o1, e1 = run3([tools['xcmp'], 'in.src', '-o', 't.bin'], cwd=d, timeout=60)
         tb = os.path.join(d, 't.bin') if os.path.exists(os.path.join(d, 't.bin')) else os.path.join(d, 'a.out')
         if rc1 != 0 or not os.path.exists(tb):
+            ck.broken.append('xcmp did not compile an accepted test source (status %d): the hexsim/xrun status comparison cannot be made' % rc1)
             continue
         rc2, o2, e2 = run3([tools['hexsim'], os.path.basename(tb)], cwd=d, input=b'', timeout=60)
         rc3, o3, e3 = run3([tools['xrun'], 'in.src'], cwd=d, input=b'', timeout=60)
@@ -209,6 +210,7 @@ def main():
             steps = int(dict(x.split('=') for x in oI.decode().split('\n')[0].split()[2:])['steps'])
         except Exception:
             steps = None
+            ck.broken.append('the extracted ISA run of a compiled test program gave no END line: ' + (oI + eI).decode('latin1')[-160:])
         if steps:
             for m in (steps - 1, steps, steps + 7):
                 if m < 1:
@@ -254,8 +256,10 @@ def main():
                 exp_out = bytes(int(x) for x in li[2].split()[2:])
                 ended = li[0].split()[1]
             except Exception:
+                ck.broken.append('the extracted ISA run of an I/O test program gave no END line: ' + (oI + eI).decode('latin1')[-160:])
                 continue
             if ended != 'exit':
+                ck.broken.append('an I/O test program does not reach its exit on the extracted ISA (%s)' % li[0][:80])
                 continue
             for tool_, cmd in (('hexsim', [tools['hexsim'], 't.bin']), ('xrun', [tools['xrun'], 'in.src'])):
                 rcx, ox, ex = run3(cmd, cwd=d, input=inp, timeout=60)
